@@ -40,8 +40,10 @@ def table_variants():
     out = []
     for name in ("t", "u"):
         for sn, sf in schemas:
-            for alias in (None, "a", "b"):
+            for alias in (None, "a", "b", name, ""):  # (also: the table's own name as alias, and the empty alias)
                 for temporal in ("none", "for", "for2", "portion"):
+                    if alias in (name, "") and temporal in ("for2", "portion"):
+                        continue
                     for qc in (None, "MySQLQuery"):
                         def mk(name=name, sf=sf, alias=alias, temporal=temporal, qc=qc):
                             t = T(name, schema=sf(), alias=alias, query_cls=reg[qc] if qc else None)
@@ -53,7 +55,7 @@ def table_variants():
                                 t = t.for_portion(reg["SystemTimeValue"]().from_to("2020", "2021"))
                             return t
                         out.append(({"name": name, "schema": sn, "alias": alias, "temporal": temporal, "qc": qc}, mk))
-                    if alias is not None:
+                    if alias not in (None, name, ""):
                         # the same table reached through the object's history: built un-aliased, hashed / put in a set / asked for
                         # its star, and only then aliased with the builder method (a copy of the used object)
                         def mk2(name=name, sf=sf, alias=alias, temporal=temporal):
